@@ -87,6 +87,39 @@ def check(run):
         t = unparse(n.value)
         ok = t.startswith("os.path.abspath(") and "os.path.join(" in t
         run.ob("C29.R1", "%s:path-normalised:%d" % (remake.fq, i), ok, run.site(remake, n), "" if ok else "path is built as `%s` without abspath(join(..))" % t)
+    # every construction of a path from a caller-supplied head directory goes through the same normalisers: a head such as "~/store" must
+    # mean the same directory where the resource is made (remake), where it is looked up (exists) and in the fallback; only the temp
+    # branch (head from mkdtemp) is exempt
+    temp_heads = {n.targets[0].id for n in walk_local(remake.node) if isinstance(n, ast.Assign) and isinstance(n.targets[0], ast.Name)
+                  and isinstance(n.value, ast.Call) and dotted(n.value.func) == "tempfile.mkdtemp"}
+    chains = []
+    for g in (remake, exists):
+        for n in walk_local(g.node):
+            if isinstance(n, ast.Assign) and isinstance(n.value, ast.Call) and any(isinstance(c, ast.Call) and dotted(c.func) == "os.path.join" for c in ast.walk(n.value)):
+                join = next(c for c in ast.walk(n.value) if isinstance(c, ast.Call) and dotted(c.func) == "os.path.join")
+                if not join.args or not {"name", "base"} <= {x.id for a in join.args for x in ast.walk(a) if isinstance(x, ast.Name)}:
+                    continue
+                head = dotted(join.args[0])
+                if head in ("name", "base"):
+                    continue        # relative part only (the containment guard), no head directory involved
+                pb = parent(n)
+                blk = next((getattr(pb, fld) for fld in ("body", "orelse") if isinstance(getattr(pb, fld, None), list) and n in getattr(pb, fld)), [])
+                if any(isinstance(st, ast.Assign) and isinstance(st.value, ast.Call) and dotted(st.value.func) == "tempfile.mkdtemp"
+                       and dotted(st.targets[0]) == head for st in blk[:blk.index(n)] if blk):
+                    continue        # the mkdtemp head of the temp branch
+                chain = []
+                e = n.value
+                while isinstance(e, ast.Call) and e is not join and e.args:
+                    chain.append(dotted(e.func))
+                    e = e.args[0]
+                chains.append((g, n, tuple(chain)))
+    kinds = sorted({c for g, n, c in chains})
+    ok = len(chains) >= 5 and len(kinds) == 1 and "os.path.expanduser" in kinds[0] and kinds[0][0] == "os.path.abspath"
+    odd = [(g, n, c) for g, n, c in chains if c != ("os.path.abspath", "os.path.expanduser")]
+    run.ob("C29.R1", "%s:head-paths-normalised-alike" % FL, ok, run.site(odd[0][0], odd[0][1]) if odd else run.site(remake),
+           "" if ok else "paths built from a caller-supplied head directory are normalised differently at %d site(s) (%s; the others use abspath(expanduser("
+           "join(...)))): with a head such as '~/store' the resource is created under <cwd>/~/store, outside the head directory that exists() "
+           "and the fallback use" % (len(odd), ", ".join("%s:%d %s" % (g.qualname, n.lineno, "∘".join(x.split(".")[-1] for x in c) or "none") for g, n, c in odd[:3])))
     # _clearPath sinks only on self.path or its dirname
     csinks = [n for n in walk_local(clearp.node) if isinstance(n, ast.Call) and dotted(n.func) in SINKS]
     defs = {}
@@ -115,7 +148,7 @@ def check(run):
                 depth0 = True
         run.ob("C29.R1", "%s:removes-own-path-only:%s" % (clearp.fq, keytext(clearp, c)), ok, run.site(clearp, c),
                "" if ok else "_clearPath removes `%s`, which is not the Filer's own path (or its directory)" % norm(a))
-    run.floor("C29.R1", 8)
+    run.floor("C29.R1", 9)
     # R3 the old resource is released under the old configuration: reopen() closes/clears before it changes what _clearPath reads
     reopen = ix.method(cls, "reopen")
     reads = {dotted(n) for g in (clearp, ix.method(cls, "close")) for n in walk_local(g.node) if isinstance(n, ast.Attribute) and isinstance(n.ctx, ast.Load)
@@ -138,6 +171,8 @@ def check(run):
 
 
 MUTANTS = [
+    Mutant("primary-path-without-expanduser", FL, "Filer.remake", "            path = os.path.abspath(\n                        os.path.expanduser(\n                            os.path.join(headDirPath,\n                                         tailDirPath,\n                                         base,\n                                         name)))\n\n            if clean and os.path.exists(path):",
+           "            path = os.path.abspath(\n                            os.path.join(headDirPath,\n                                         tailDirPath,\n                                         base,\n                                         name))\n\n            if clean and os.path.exists(path):", {"C29.R1"}),
     Mutant("reintroduce-no-containment", FL, "Filer.remake", "        rel = os.path.normpath(os.path.join(base, name))  # collapse any .. segments\n        if rel == os.pardir or rel.startswith(os.pardir + os.sep):\n            raise hioing.FilerError(f\"Path {base=} {name=} escapes head directory.\")\n", "", {"C29.R1"}, canary=True),
     Mutant("containment-name-only", FL, "Filer.remake", "rel = os.path.normpath(os.path.join(base, name))", "rel = os.path.normpath(name)", {"C29.R1"}),
     Mutant("clearpath-removes-headdir", FL, "Filer._clearPath", "                shutil.rmtree(self.path)  # remove trailing dir of path (and all below)", "                shutil.rmtree(self.headDirPath)", {"C29.R1"}, canary=True),
